@@ -12,6 +12,7 @@ import (
 	"testing"
 
 	vrt "github.com/gotid/god"
+	"github.com/gotid/god/api/httpx"
 	"github.com/gotid/god/api/pathvar"
 )
 
@@ -236,6 +237,123 @@ func checkTable(c *vrt.Cases, table []rRoute, reqMethods, reqPaths []string) {
 			}
 		}
 	}
+}
+
+// answer of a router to one request, as a comparable string
+func routerAnswer(rt http.Handler, o *rObs, m, p string) string {
+	o.ran, o.vars = nil, nil
+	rec := httptest.NewRecorder()
+	rt.ServeHTTP(rec, &http.Request{Method: m, URL: &url.URL{Path: p}, Header: http.Header{}})
+	var allow []string
+	for _, a := range strings.Split(rec.Header().Get("Allow"), ",") {
+		if a = strings.TrimSpace(a); a != "" {
+			allow = append(allow, a)
+		}
+	}
+	sort.Strings(allow)
+	vars := ""
+	if len(o.vars) > 0 {
+		vars = fmt.Sprint(o.vars)
+	}
+	return fmt.Sprintf("ran=%v vars=%s status=%d allow=%v", o.ran, vars, rec.Code, allow)
+}
+
+// checkGrowing: routing depends on the routes registered at the time of the request and on
+// nothing else.  The table is registered in two instalments on one router, every request is
+// served after each instalment, and each answer must be the answer of a router that was
+// built with exactly those routes and has served nothing before (what such a router answers
+// is judged against the reference by checkTable).  Covers whatever a router may remember
+// between requests: results of earlier searches, patterns tried, not-found verdicts.
+func checkGrowing(c *vrt.Cases, table []rRoute, reqMethods, reqPaths []string) {
+	build := func(o *rObs, rt httpx.Router, routes []rRoute) bool {
+		for _, r := range routes {
+			r := r
+			if err := rt.Handle(r.method, r.pattern, http.HandlerFunc(func(w http.ResponseWriter, req *http.Request) {
+				o.ran = append(o.ran, r.id())
+				o.vars = pathvar.Vars(req)
+			})); err != nil {
+				c.Violation(fmt.Sprint(routes), "registration", fmt.Sprintf("valid table rejected: %v", err))
+				return false
+			}
+		}
+		return true
+	}
+	orders := [][]rRoute{table}
+	if len(table) > 1 {
+		rev := make([]rRoute, len(table))
+		for i := range table {
+			rev[len(table)-1-i] = table[i]
+		}
+		orders = append(orders, rev)
+	}
+	for _, order := range orders {
+		for split := 0; split < len(order); split++ {
+			og := &rObs{}
+			grown := NewRouter()
+			if !build(og, grown, order[:split]) {
+				return
+			}
+			for stage, upto := range []int{split, len(order)} {
+				if stage == 1 && !build(og, grown, order[split:]) {
+					return
+				}
+				of := &rObs{}
+				fresh := NewRouter()
+				if !build(of, fresh, order[:upto]) {
+					return
+				}
+				for _, m := range reqMethods {
+					for _, p := range reqPaths {
+						got := routerAnswer(grown, og, m, p)
+						want := routerAnswer(fresh, of, m, p)
+						c.Eval(fmt.Sprintf("stage%d/%s", stage, strings.SplitN(want, " vars", 2)[0]), func() any {
+							return map[string]any{"registered_first": fmt.Sprint(order[:split]), "registered_later": fmt.Sprint(order[split:]), "stage": stage, "request": m + " " + p, "answer": want}
+						})
+						if got != want {
+							c.Violation(fmt.Sprintf("register %v, serve every request, register %v; request=%s %q (stage %d)", order[:split], order[split:], m, p, stage), "history dependence",
+								fmt.Sprintf("the router that served requests while its table grew answers %s; a router built with the same routes answers %s", got, want))
+							return
+						}
+					}
+				}
+			}
+		}
+	}
+}
+
+func TestVerifRoutingGrowing(t *testing.T) {
+	defer vrt.WriteReport()
+	var routes []rRoute
+	for _, m := range []string{http.MethodGet, http.MethodPost} {
+		for _, p := range patterns(2) {
+			routes = append(routes, rRoute{m, p})
+		}
+	}
+	maxRoutes := 3
+	reqMethods := []string{http.MethodGet, http.MethodPost, http.MethodPut}
+	reqPaths := requestPaths(3)
+	c := vrt.NewCases("routing/served-while-growing/tables<=" + fmt.Sprint(maxRoutes))
+	n := 0
+	var rec func(start int, table []rRoute)
+	rec = func(start int, table []rRoute) {
+		if c.NumViolations() > 0 || c.Expired() {
+			return
+		}
+		if len(table) > 0 {
+			n++
+			if vrt.Shard(n + 5) {
+				checkGrowing(c, table, reqMethods, reqPaths)
+			}
+		}
+		if len(table) == maxRoutes {
+			return
+		}
+		for i := start; i < len(routes); i++ {
+			rec(i+1, append(append([]rRoute{}, table...), routes[i]))
+		}
+	}
+	rec(0, nil)
+	c.Done()
 }
 
 func TestVerifRouting(t *testing.T) {
